@@ -52,6 +52,8 @@ type Engine struct {
 	notes    map[string]bool
 	wantPanics bool
 	usedAxioms map[string]bool
+	attrIndex  map[string]*TypeAttr
+	attrTypes  map[string]types.Type
 }
 
 func NewEngine(repoDir string, specDir string) (*Engine, error) {
@@ -287,4 +289,40 @@ func (e *Engine) pos(p token.Pos) token.Position {
 		return token.Position{}
 	}
 	return e.fset.Position(p)
+}
+
+// ifaceParamNames returns the declared parameter names of interface method key "pkgpath.Iface.Method".
+func (e *Engine) ifaceParamNames(key string) []string {
+	i := strings.LastIndex(key, ".")
+	meth := key[i+1:]
+	rest := key[:i]
+	j := strings.LastIndex(rest, ".")
+	pkg, iname := rest[:j], rest[j+1:]
+	sp := e.ssaPkgs[pkg]
+	if sp == nil {
+		panic(cerr("unknown package %s in %s", pkg, key))
+	}
+	obj := sp.Pkg.Scope().Lookup(iname)
+	if obj == nil {
+		panic(cerr("unknown interface %s", key))
+	}
+	it, ok := obj.Type().Underlying().(*types.Interface)
+	if !ok {
+		panic(cerr("%s is not an interface", iname))
+	}
+	for k := 0; k < it.NumMethods(); k++ {
+		if it.Method(k).Name() == meth {
+			sig := it.Method(k).Type().(*types.Signature)
+			var out []string
+			for a := 0; a < sig.Params().Len(); a++ {
+				n := sig.Params().At(a).Name()
+				if n == "" || n == "_" {
+					n = fmt.Sprintf("a%d", a)
+				}
+				out = append(out, n)
+			}
+			return out
+		}
+	}
+	panic(cerr("no method %s", key))
 }
